@@ -34,6 +34,7 @@ fn any_f(lo: F, hi: F) -> F {
 // @ob props=C02,C04,C20 tier=quick kind=P cfg=core-std,core-none,core-mm,core-libm timeout=600
 // @fn round_up_to_half
 // @clause contract of the pixel rounding rule in every float backend: for -0.5 <= x <= 2^22 the result r is a pixel centre (r - 0.5 integer, r >= 0.5) with r > x and r - 1 <= x (+1 ulp); a left edge at x therefore starts at the first centre strictly right of x and a right edge at x ends just before it
+#[cfg(not(verif_skip_raster_round_up_to_half_contract))]
 #[kani::proof_for_contract(round_up_to_half)]
 fn raster_round_up_to_half_contract() {
     let x: F = kani::any();
@@ -42,7 +43,8 @@ fn raster_round_up_to_half_contract() {
 
 // @ob props=C02,C04 tier=quick kind=P cfg=core-std,core-none timeout=600
 // @fn round_up_to_half
-// @clause consequences used by the in-bounds argument: for every width W < 2^22, an edge at x <= W + 0.5 - ulp maps to an exclusive end index <= W; the cast to usize is the floor; the rule is monotone (x <= x' => r <= r'), which makes the end of a right edge at x equal the start of a left edge at the same x and spans of adjacent triangles disjoint
+// @clause consequences used by the in-bounds argument: for every width W < 2^22, an edge at x <= W + 0.25 maps to an exclusive end index <= W; the cast to usize is the floor; the rule is monotone (x <= x' => r <= r'), which makes the end of a right edge at x equal the start of a left edge at the same x and spans of adjacent triangles disjoint
+#[cfg(not(verif_skip_raster_rounding_consequences))]
 #[kani::proof]
 fn raster_rounding_consequences() {
     let x = any_f(-0.5, 4194304.0);
@@ -50,7 +52,9 @@ fn raster_rounding_consequences() {
     let w: u32 = kani::any();
     kani::assume(w < 4194304);
     kani::cover!(x > 100.25 && x < 100.75);
-    if x < w as F + 0.5 {
+    // an edge inside the viewport (x <= W, a quarter pixel of slack) never yields an end index beyond W.
+    // (x < W + 0.5 would be too strong: W + 0.5 - ulp rounds up to W + 1 when 0.5 is added, DESIGN 3a.1.)
+    if x <= w as F + 0.25 {
         assert!((r as usize) <= w as usize);
     }
     assert!((r as usize) as F == r - 0.5);
@@ -67,6 +71,7 @@ fn any_step() -> (crate::math::Vec3<Screen>, F) {
 // @ob props=C02,C04,C05 tier=quick kind=P cfg=core-std timeout=1800
 // @fn <ScanlineIter<V> as Iterator>::next ; round_up_to_half ; <Iter<T> as Iterator>::next
 // @clause one step of the scanline iterator (V = f32, coordinates in [0,1024], any n > 0): emits row floor(y) and advances y by exactly 1 and n by -1; xs.start/xs.end are the rounding-rule images of the current left/right x (so xs.start..xs.end are exactly the centres in (x_left, x_right]); the varying iterator yields exactly max(0, end-start) items; the first fragment sits on the pixel centre xs.start+0.5 (within 1e-3); equal left and right x give an empty span
+#[cfg(not(verif_skip_raster_next_step))]
 #[kani::proof]
 fn raster_next_step() {
     let y = any_f(0.5, 1024.5);
@@ -108,6 +113,7 @@ fn raster_next_step() {
 // @ob props=C02,C04 tier=quick kind=P cfg=core-std timeout=600
 // @fn <ScanlineIter<V> as Iterator>::next
 // @clause the scanline iterator returns None exactly when n = 0 and then changes nothing
+#[cfg(not(verif_skip_raster_next_exhausted))]
 #[kani::proof]
 fn raster_next_exhausted() {
     let y = any_f(0.5, 1024.5);
@@ -127,6 +133,7 @@ fn raster_next_exhausted() {
 // @ob props=C02,C04,C05 tier=quick kind=P cfg=core-std timeout=1800
 // @fn scan ; round_up_to_half
 // @clause scan set-up for every trapezoid with coordinates in [0,64] and height >= 0.01 (V = f32): the first row is the first pixel-centre row strictly below y0; n is the number of centre rows in (y0, y1]
+#[cfg(not(verif_skip_raster_scan_setup))]
 #[kani::proof]
 fn raster_scan_setup() {
     let (y0, y1) = (any_f(0.0, 64.0), any_f(0.0, 64.0));
@@ -150,6 +157,7 @@ fn raster_scan_setup() {
 // @ob props=C04,C05 tier=thorough kind=P cfg=core-std timeout=3600
 // @fn scan
 // @clause scan set-up, y pre-step: the left start point carries the first row's y (within 1e-4) and the per-row step advances y by 1 (within 1e-4), for every trapezoid with coordinates in [0,64] and height >= 0.01
+#[cfg(not(verif_skip_raster_scan_prestep_y))]
 #[kani::proof]
 fn raster_scan_prestep_y() {
     let (y0, y1) = (any_f(0.0, 64.0), any_f(0.0, 64.0));
@@ -166,6 +174,7 @@ fn raster_scan_prestep_y() {
 // @ob props=C02,C04 tier=quick kind=P cfg=core-std timeout=600
 // @fn scan
 // @clause an empty or inverted row range (y1 <= y0, including the zero-height half of a flat-topped triangle, where the slopes are infinite or NaN) yields no scanline: the row count saturates to 0
+#[cfg(not(verif_skip_raster_scan_empty_range))]
 #[kani::proof]
 fn raster_scan_empty_range() {
     let (y0, y1) = (any_f(0.0, 1024.0), any_f(0.0, 1024.0));
@@ -182,6 +191,7 @@ fn raster_scan_empty_range() {
 // @ob props=C05 tier=quick kind=P cfg=core-std timeout=1800 nan_ok=1
 // @fn scan
 // @clause for every trapezoid with coordinates in [0,64], height >= 0.01 and at least one base wider than 0.01 (so the area is far above 1e-6 px^2) the precomputed horizontal gradient dv/dx is finite and its position part advances x by 1 (within 1e-3), and the start values and per-row steps are finite
+#[cfg(not(verif_skip_raster_scan_gradient_finite))]
 #[kani::proof]
 fn raster_scan_gradient_finite() {
     let (y0, y1) = (any_f(0.0, 64.0), any_f(0.0, 64.0));
@@ -218,6 +228,7 @@ fn any_pow2() -> (F, F) {
 // @fn <f32 as ZDiv>::z_div ; <(T,U) as ZDiv>::z_div ; <Vector as ZDiv>::z_div ; <Point as ZDiv>::z_div ; <Color as ZDiv>::z_div
 // @bound divisor z in {1/4, 1/2, 1, 2, 4, 8} (powers of two, where the quotient equals an exact product); complete in the components (all f32 bit patterns)
 // @clause perspective division: z_div divides every float component by z, bit for bit, for scalars, nested tuples, vectors, points and float colours, component order preserved; () is unchanged
+#[cfg(not(verif_skip_raster_zdiv_impls))]
 #[kani::proof]
 #[kani::unwind(5)]
 fn raster_zdiv_impls() {
@@ -242,6 +253,7 @@ fn raster_zdiv_impls() {
 // @ob props=C05 tier=thorough kind=P cfg=core-std timeout=3000
 // @fn <f32 as ZDiv>::z_div
 // @clause scalar perspective division is the correctly rounded quotient a / z for all f32 pairs
+#[cfg(not(verif_skip_raster_zdiv_scalar_all))]
 #[kani::proof]
 fn raster_zdiv_scalar_all() {
     let (a, z): (F, F) = (kani::any(), kani::any());
@@ -254,6 +266,7 @@ fn raster_zdiv_scalar_all() {
 // @fn Scanline::fragments
 // @bound spans of at most 3 fragments; reciprocal depth constant along the span, z in {1/4, 1/2, 1, 2, 4, 8}
 // @clause every fragment keeps the interpolated position untouched and carries var.z_div(pos.z), i.e. the varying divided by the interpolated reciprocal depth; positions advance by exactly the stored step; the fragment count equals the span length
+#[cfg(not(verif_skip_raster_fragments_zdiv))]
 #[kani::proof]
 #[kani::unwind(5)]
 fn raster_fragments_zdiv() {
@@ -282,10 +295,70 @@ fn raster_fragments_zdiv() {
     assert!(k == n);
 }
 
+// @ob props=C05 tier=quick kind=B cfg=core-std timeout=900
+// @fn Scanline::fragments
+// @bound spans of 2 fragments whose reciprocal depths are 2^-k and 2^-(k-1), k in {1, 2, 6, 12, 20} (a varying depth, from near to very distant geometry, with exact quotients)
+// @clause each fragment is divided by ITS OWN interpolated reciprocal depth, not by the span's first or last one, however small the depth step is
+#[cfg(not(verif_skip_raster_fragments_own_depth))]
+#[kani::proof]
+#[kani::unwind(5)]
+fn raster_fragments_own_depth() {
+    let (a, da) = (any_f(-8.0, 8.0), any_f(-1.0, 1.0));
+    let k: u8 = kani::any();
+    let (z0, inv0, inv1): (F, F, F) = match k % 5 {
+        0 => (0.5, 2.0, 1.0),
+        1 => (0.25, 4.0, 2.0),
+        2 => (0.015625, 64.0, 32.0),
+        3 => (0.000244140625, 4096.0, 2048.0),
+        _ => (0.00000095367431640625, 1048576.0, 524288.0),
+    };
+    let mut sl: Scanline<F> = Scanline {
+        y: 3,
+        xs: 10..12,
+        vs: (pt3(10.5, 3.5, z0), a).vary((vec3(1.0, 0.0, z0), da), Some(2)),
+    };
+    let mut it = sl.fragments();
+    let (f0, f1) = (it.next().unwrap(), it.next().unwrap());
+    kani::cover!(k % 5 == 4);
+    assert!(f0.pos.z() == z0 && f1.pos.z() == z0 + z0);
+    assert!(f0.var.to_bits() == (a * inv0).to_bits());
+    assert!(f1.var.to_bits() == ((a + da) * inv1).to_bits());
+    assert!(it.next().is_none());
+}
+
+// @ob props=C04,C02 tier=quick kind=P cfg=core-std timeout=1800
+// @fn scan ; <ScanlineIter<V> as Iterator>::next
+// @clause through the public API only: iterating scan() over a vertical-sided trapezoid with ANY float y-range inside [0,4] emits exactly the rows whose centre lies in (y0, y1], each once and in increasing order, each with the span of centres in (x_left, x_right]; nothing for an empty or inverted range
+#[cfg(not(verif_skip_raster_scan_rows_public_api))]
+#[kani::proof]
+#[kani::unwind(7)]
+fn raster_scan_rows_public_api() {
+    let (y0, y1) = (any_f(0.0, 4.0), any_f(0.0, 4.0));
+    let p = |x, y| -> Varyings<()> { (pt3(x, y, 1.0), ()) };
+    let (l0, l1, r0, r1) = (p(1.0, y0), p(1.0, y1), p(3.0, y0), p(3.0, y1));
+    let mut rows = [0u8; 4];
+    let mut last: i32 = -1;
+    for sl in scan(y0..y1, &l0..&l1, &r0..&r1) {
+        assert!(sl.y < 4 && sl.y as i32 > last);
+        last = sl.y as i32;
+        rows[sl.y] += 1;
+        assert!(sl.xs.start == 1 && sl.xs.end == 3);
+    }
+    kani::cover!(rows[1] == 1 && rows[2] == 1);
+    kani::cover!(y1 < y0);
+    let mut k = 0;
+    while k < 4 {
+        let c = k as F + 0.5;
+        assert!(rows[k] == if y0 < c && c <= y1 { 1 } else { 0 });
+        k += 1;
+    }
+}
+
 // @ob props=C04,C02 tier=thorough kind=B cfg=core-std timeout=7200
 // @fn tri_fill ; scan ; <ScanlineIter<V> as Iterator>::next
 // @bound every triangle (degenerate ones included, all 5^6 vertex triples, hence all vertex orders) on the half-pixel lattice [0,2]^2, 2x2 pixels, V = ()
 // @clause coverage against an exact integer edge-function oracle: a pixel centre strictly inside the triangle is covered exactly once; a centre strictly outside and not on the segment of any edge is not covered; centres on an edge segment (distance 0, the only lattice points within the property's 0.001 px band) are exempt; scanlines arrive in strictly increasing y, stay inside the 2x2 grid, and their x-range length equals the fragment count; the verdict is symmetric in the vertex order
+#[cfg(not(verif_skip_raster_tri_fill_lattice))]
 #[kani::proof]
 #[kani::unwind(8)]
 fn raster_tri_fill_lattice() {
